@@ -77,6 +77,34 @@ ALLOWED_GUARD_DEPS = {
 }
 
 
+# What each structure check's *own* condition may read (state keys and calls), frozen from the
+# reviewed tree: a site's condition must read exactly one of the listed sets.  A conjunct on
+# anything else makes the rule depend on an unrelated circumstance (position in the stream,
+# another unit's fields); a dropped operand changes what the rule compares.
+OWN_CONDITION_READS = {
+    "BadParseInfoPrefix": [{"read_uint_lit()"}],
+    "InconsistentNextParseOffset": [{"_last_parse_info_offset", "next_parse_offset", "tell()"}],
+    "MissingNextParseOffset": [{"next_parse_offset"}],
+    "InvalidNextParseOffset": [{"next_parse_offset"}],
+    "NonZeroNextParseOffsetAtEndOfSequence": [{"next_parse_offset"}],
+    "InconsistentPreviousParseOffset": [{"_last_parse_info_offset", "previous_parse_offset", "tell()"}],
+    "NonZeroPreviousParseOffsetAtStartOfSequence": [{"previous_parse_offset"}],
+    "ParseCodeNotAllowedInProfile": [{"parse_code", "profile"}],
+    "ParseCodeNotSupportedByVersion": [{"major_version", "parse_code"}],
+    "NonConsecutivePictureNumbers": [{"_last_picture_number", "picture_number"}],
+    "EarliestFieldHasOddPictureNumber": [{"_num_pictures_in_sequence", "picture_coding_mode", "picture_number"}],
+    "OddNumberOfFieldsInSequence": [{"_num_pictures_in_sequence"}],
+    "FragmentedPictureRestarted": [{"_fragment_slices_remaining"}],
+    "PictureNumberChangedMidFragmentedPicture": [{"_last_picture_number", "picture_number"}],
+    "TooManySlicesInFragmentedPicture": [{"_fragment_slices_remaining"}, {"_fragment_slices_remaining", "fragment_slice_count"}],
+    "FragmentSlicesNotContiguous": [{"fragment_slice_count", "fragment_slices_received", "fragment_x_offset", "fragment_y_offset", "slices_x"}],
+    "SequenceContainsIncompleteFragmentedPicture": [{"_fragment_slices_remaining"}],
+    "PictureInterleavedWithFragmentedPicture": [{"_fragment_slices_remaining"}],
+    "SequenceHeaderChangedMidSequence": [{"_last_sequence_header_bytes", "record_bitstream_finish()"}],
+    "MajorVersionTooHigh": [{"_expected_major_version", "major_version"}],
+}
+
+
 def check(repo, tier="quick"):
     res = Result("C01")
     res.explanation = (
@@ -600,4 +628,8 @@ def rule_g(repo, res, sf):
                 chk = p if isinstance(p, ast.If) else node
             sig = _guard_signature(chk, fn)
             extra = sorted(sig - allowed)
+            if isinstance(chk, ast.If) and cls in OWN_CONDITION_READS:
+                own = _mentions(chk.test, fn, 0, None)
+                okown = any(own == w for w in OWN_CONDITION_READS[cls])
+                res.check(okown, "C01.g", "condition:%s@%s:%s" % (cls, fn.name, ",".join(sorted(own))[:60]), "%s:%s" % (m.rel, fn.name), "the condition of the %s check reads %s; the rule compares %s -- %s" % (cls, sorted(own), " or ".join(str(sorted(w)) for w in OWN_CONDITION_READS[cls]), "it now also depends on %s, so histories where that is false escape the rule" % sorted(own - set().union(*OWN_CONDITION_READS[cls])) if own - set().union(*OWN_CONDITION_READS[cls]) else "an operand of the rule is no longer consulted"), by="condition reads exactly %s" % sorted(own))
             res.check(not extra, "C01.g", "deps:%s@%s" % (cls, fn.name), "%s:%s" % (m.rel, fn.name), "whether the %s check is evaluated now also depends on %s (allowed: %s): histories where that condition fails are no longer checked" % (cls, extra, sorted(allowed)), by="depends only on %s" % (sorted(sig) or "nothing"))
